@@ -60,6 +60,7 @@ type scene struct {
 	overlap       bool
 	alignedBounds int
 	exactBounds   int // canvas bounds that are exactly a multiple of the block size
+	exactUpper    int // … of which UPPER bounds: the block that starts there gets an empty sample range
 }
 
 var attrPalette = []string{modeling.PositionAttribute, "density", "aux"}
@@ -278,7 +279,7 @@ func (sc *scene) derive() {
 	var lo, hi [3]int
 	first := true
 	sc.latticeOnly = map[string]bool{}
-	sc.exactBounds = 0
+	sc.exactBounds, sc.exactUpper = 0, 0
 	cnt := map[string]int{}
 	for i := range sc.Fields {
 		fd := &sc.Fields[i]
@@ -290,6 +291,9 @@ func (sc *scene) derive() {
 			cl, ch := int(math.Floor(mins[a]*sc.CPU))-1, int(math.Ceil(maxs[a]*sc.CPU))+1
 			if cl%blockCells == 0 || ch%blockCells == 0 {
 				sc.exactBounds++
+			}
+			if ch%blockCells == 0 {
+				sc.exactUpper++
 			}
 			l := int(math.Floor(float64(cl) / blockCells))
 			h := int(math.Floor(float64(ch) / blockCells))
@@ -1199,6 +1203,29 @@ func genSeamScene(r *rand.Rand) *scene {
 }
 
 // tieCases: exact-tie scenes (after the seam cases).
+func exactBoundCases(tier string) int {
+	if tier == "thorough" {
+		return 60
+	}
+	return 12
+}
+
+// genExactBoundScene (round 7, C10-L): scenes of the ordinary generator, kept only when some field's UPPER
+// canvas bound is exactly a multiple of the block size (the block starting there is allocated by AddField
+// with an empty sample range and then supplies the far corners of the last cell layer) and the cutoff puts
+// a surface into that layer (cutoff > 0: unwritten samples are 0, i.e. inside). k rotates how many such
+// bounds are asked for (1, 2, 3+).
+func genExactBoundScene(r *rand.Rand, k int) *scene {
+	var sc *scene
+	for try := 0; try < 5000; try++ {
+		sc = genScene(r, 8, 2)
+		if sc.exactUpper >= 1+k%3 && sc.Cutoff > 0 {
+			break
+		}
+	}
+	return sc
+}
+
 func tieCases(tier string) int {
 	if tier == "thorough" {
 		return 15
@@ -1402,6 +1429,9 @@ func fieldCase(c *run.Ctx) run.Result {
 	} else if c.Case < special+seamCases(c.Tier)+tieCases(c.Tier) {
 		sc = genTieScene(r, c.Case-special-seamCases(c.Tier))
 		res.Count("field_exact_tie_scenes", 1)
+	} else if c.Case < special+seamCases(c.Tier)+tieCases(c.Tier)+exactBoundCases(c.Tier) {
+		sc = genExactBoundScene(r, c.Case)
+		res.Count("field_exact_upper_bound_scenes", 1)
 	} else {
 		sc = genScene(r, budget, 3)
 	}
@@ -1544,6 +1574,7 @@ func fieldCase(c *run.Ctx) run.Result {
 		res.Count("field_aligned_scenes", 1)
 	}
 	res.Count("field_exact_block_bounds", int64(sc.exactBounds))
+	res.Count("field_exact_upper_block_bounds", int64(sc.exactUpper))
 	res.SetAdd("field_cutoffs", fmt.Sprint(sc.Cutoff))
 	for _, f := range sc.Fields {
 		if f.isPF() {
